@@ -126,7 +126,7 @@ pub fn run(ctx: &Ctx, replay: Option<&J>) -> CheckResult {
             let mut out = Vec::new();
             let mut rng = ctx.rng("c09-msm", tc.number as u64);
             let table = cons.table();
-            let reps = ctx.n(60, 1500);
+            let reps = ctx.n(400, 8000);
             for rep in 0..reps {
                 let kind = rep % 8;
                 let ng = 1 + rng.below(table.len() as u64) as usize;
@@ -305,7 +305,7 @@ pub fn run(ctx: &Ctx, replay: Option<&J>) -> CheckResult {
         }
     }
     // (1) proptest recipes
-    let cases = ctx.n(120_000, 4_000_000);
+    let cases = ctx.n(400_000, 12_000_000);
     let (pev, pvs) = pt_run(
         ctx,
         "c09",
